@@ -8,3 +8,11 @@ for f in sorted(glob.glob('/verif/evidence/*.json')):
         jsonschema.validate(json.load(open(f)), s); print(f, 'ok')
     except Exception as e:
         print(f, 'INVALID', str(e)[:300]); sys.exit(1)
+# the per-property table of the driver: a misplaced comma in a prop(...) call silently shifts its arguments
+sys.path.insert(0, '/verif')
+import checkcfg
+for k, p in checkcfg.PROPS.items():
+    assert isinstance(p['rule'], str) and isinstance(p['units'], list) and isinstance(p['assumptions'], list) and isinstance(p['max_inconclusive'], int), 'checkcfg.py: arguments of prop(%s) are shifted' % k
+    for u in p['units']:
+        assert {'pkg', 'test', 'quick', 'thorough'} <= set(u), 'checkcfg.py: unit of %s incomplete' % k
+print('checkcfg ok')
